@@ -1009,7 +1009,7 @@ func execC18(t *testing.T, c *Case) *Verdict {
 	e := &c18Exec{c: c, v: v, cache: map[string]*patch.Expression{}, cacheE: map[string]error{}}
 	defer func() {
 		if p := recover(); p != nil {
-			v.Infra = fmt.Sprintf("bubble panic: %v", p)
+			v.Infra = bubblePanic(p, &v.Stats)
 		}
 	}()
 	var sdig string
@@ -1056,7 +1056,7 @@ func execC18(t *testing.T, c *Case) *Verdict {
 			r.setRootOp(nil)
 		} else {
 			sc := newSched(c.Tape, c.Knobs.SwitchThr, 20000)
-			r.sc = sc
+			r.attach(sc)
 			r.taskOps = make([]*opCtx, len(cl))
 			panics := make([]string, len(cl))
 			for ci := range cl {
@@ -1077,7 +1077,7 @@ func execC18(t *testing.T, c *Case) *Verdict {
 				v.Infra = err.Error()
 				return
 			}
-			r.sc = nil
+			r.detach(sc)
 			for ci, p := range panics {
 				if p != "" {
 					v.Infra = fmt.Sprintf("client %d harness panic: %s", ci, p)
